@@ -11,7 +11,7 @@ if os.path.exists(f'{src}/notes.md'):
     shutil.copy(f'{src}/notes.md', f'{dst}/notes.md')
 demo = f'{dst}/demo'
 if os.path.exists(demo): shutil.rmtree(demo)
-shutil.copytree(f'{src}/demo', demo, ignore=shutil.ignore_patterns('target'))
+shutil.copytree(f'{src}/demo', demo, ignore=shutil.ignore_patterns('target', 'target-*'))
 # the demo depends on the sub-agent's scratch worktree: point it at /repo (apply patch.diff there to see it fail)
 for root, _, files in os.walk(demo):
     for f in files:
